@@ -275,19 +275,36 @@ def modelTarget (modelName : Str) : Str × Str :=
   let parts := splitDot modelName
   (strDirectNn ++ joinDot (parts.dropLast.map lower), parts.getLast?.getD [])
 
-/-- module / attribute of the model's config class: `direct.nn.<first.lower()>.config`, `<last>Config` -/
+/-- module / attribute of the model's config class, as `load_model_config_from_name` computes them:
+`direct.nn.<first.lower()>.config`, and the last dotted component of `model_name + "Config"` -/
 def modelConfigTarget (modelName : Str) : Str × Str :=
-  let parts := splitDot modelName
-  (strDirectNn ++ lower (parts.headD []) ++ strDotConfig, parts.getLast?.getD [] ++ strConfig)
+  (strDirectNn ++ lower ((splitDot modelName).headD []) ++ strDotConfig,
+   (splitDot (modelName ++ strConfig)).getLast?.getD [])
 
 /-- module / attribute of the engine class; `engineName = none` when the config leaves it null or empty -/
 def engineTarget (modelName : Str) (engineName : Option Str) : Str × Str :=
-  let parts := splitDot modelName
-  let short := lower (parts.headD [])
-  (strDirectNn ++ short ++ dot :: short ++ strEngineMod,
+  let short := (splitDot modelName).headD []
+  (strDirectNn ++ lower short ++ dot :: lower short ++ strEngineMod,
    match engineName with
    | some e => e
-   | none => parts.getLast?.getD [] ++ strEngine)
+   | none => (splitDot modelName).getLast?.getD [] ++ strEngine)
+
+def strModDatasetsConfig : Str := [100, 105, 114, 101, 99, 116, 46, 100, 97, 116, 97, 46, 100, 97, 116, 97, 115, 101, 116, 115, 95, 99, 111, 110, 102, 105, 103]   -- "direct.data.datasets_config"
+def strModDatasets : Str := [100, 105, 114, 101, 99, 116, 46, 100, 97, 116, 97, 46, 100, 97, 116, 97, 115, 101, 116, 115]         -- "direct.data.datasets"
+def strModSubsample : Str := [100, 105, 114, 101, 99, 116, 46, 99, 111, 109, 109, 111, 110, 46, 115, 117, 98, 115, 97, 109, 112, 108, 101]        -- "direct.common.subsample"
+def strModTransforms : Str := [100, 105, 114, 101, 99, 116, 46, 100, 97, 116, 97, 46, 116, 114, 97, 110, 115, 102, 111, 114, 109, 115]       -- "direct.data.transforms"
+def strModFunctionals : Str := [100, 105, 114, 101, 99, 116, 46, 102, 117, 110, 99, 116, 105, 111, 110, 97, 108, 115]      -- "direct.functionals"
+
+/-- `load_dataset_config(name)`: `direct.data.datasets_config.<name>Config` -/
+def datasetConfigTarget (name : Str) : Str × Str := (strModDatasetsConfig, name ++ strConfig)
+/-- `build_dataset(name)`: `direct.data.datasets.<name>Dataset` -/
+def datasetClassTarget (name : Str) : Str × Str := (strModDatasets, name ++ strDataset)
+/-- `build_masking_function(name)`: `direct.common.subsample.<name>MaskFunc` -/
+def maskFuncTarget (name : Str) : Str × Str := (strModSubsample, name ++ strMaskFunc)
+/-- `build_operators`: `str_to_class("direct.data.transforms", <operator string>)` -/
+def operatorTarget (op : Str) : Str × Str := (strModTransforms, op)
+/-- `Engine._build_function_class(names, "direct.functionals", …)` -/
+def functionalTarget (fn : Str) : Str × Str := (strModFunctionals, fn)
 
 /-! Strings in the generated tables are *packed* into one natural number each (code points as digits in base 2^21,
 first character lowest), so that a table of a thousand names is a thousand numerals; computed names are packed before
@@ -352,9 +369,6 @@ structure Tables where
   kPhysics : Sym
   kForward : Sym
   kBackward : Sym
-  modDatasetsConfig : Str
-  modSubsample : Str
-  modTransforms : Str
 
 def Tables.strOf (t : Tables) (s : Sym) : Str := unpack (t.symbols.getD s 0)
 
@@ -403,7 +417,7 @@ def datasetSchema (t : Tables) (block : Val) : Except Err Ty :=
     match lookup t.kName kvs with
     | none => .error .valueError
     | some (.str s _) =>
-      match lookupSchema t (t.modDatasetsConfig, t.strOf s ++ strConfig) with
+      match lookupSchema t (datasetConfigTarget (t.strOf s)) with
       | some ty => .ok ty
       | none => .error .attributeError
     | some _ => .error .typeError        -- `name + "Config"` on a non-string
@@ -504,7 +518,7 @@ def physicsDefault (t : Tables) : Val :=
 
 def operatorResolves (t : Tables) (file : Val) (k : Sym) : Res :=
   match effective (physicsDefault t) (file.get? t.kPhysics) [k] with
-  | .str s _ => if resolves t.modules (t.modTransforms, callHead (t.strOf s)) then .ok () else .error .attributeError
+  | .str s _ => if resolves t.modules ((operatorTarget (t.strOf s)).1, callHead (operatorTarget (t.strOf s)).2) then .ok () else .error .attributeError
   | _ => .error .typeError
 
 def operatorsCheck (t : Tables) (file : Val) : Res :=
@@ -538,7 +552,7 @@ def maskingCheck (t : Tables) (masking : Val) : Res :=
     | some .missing => .error .missingMandatoryValue
     | some (.str s _) =>
       if !(t.maskBuilderRequired.all fun p => (lookup p kvs).isSome) then .error .typeError else
-      if resolves t.modules (t.modSubsample, t.strOf s ++ strMaskFunc) then .ok () else .error .attributeError
+      if resolves t.modules (maskFuncTarget (t.strOf s)) then .ok () else .error .attributeError
     | some _ => .error .typeError
   | .missing => .error .missingMandatoryValue
   | _ => .error .typeError
